@@ -40,6 +40,12 @@ func GenFlow(rng *rand.Rand, o GenOpts) *FlowP {
 		nT = 1 + rng.Intn(3)
 	}
 	f.Generic = !o.Modifier && rng.Intn(7) == 0
+	// tree: every task has at most one input, taken from any earlier output: pipelines that fan
+	// out at depth beside independent roots (the graph is wider than any one of its levels)
+	tree := !o.Modifier && rng.Intn(6) == 0
+	if tree && nT < 5 {
+		nT = 5 + rng.Intn(4)
+	}
 	usedBasic := map[int]bool{}
 	newType := func() int {
 		k := rng.Intn(NumTypeKinds - 1) // TOther drawn separately
@@ -49,6 +55,10 @@ func GenFlow(rng *rand.Rand, o GenOpts) *FlowP {
 		spec := TypeSpec{Kind: k}
 		switch {
 		case o.Modifier:
+		case usedBasic[101] && !usedBasic[102]:
+			// the unnamed function type is in the flow: give it a named sibling it is assignable to
+			usedBasic[102] = true
+			spec = TypeSpec{Kind: TFunc}
 		case f.Generic && rng.Intn(2) == 0:
 			spec = TypeSpec{Kind: TParam}
 		case rng.Intn(12) == 0:
@@ -56,6 +66,9 @@ func GenFlow(rng *rand.Rand, o GenOpts) *FlowP {
 		case rng.Intn(14) == 0 && !usedBasic[100]:
 			usedBasic[100] = true
 			spec = TypeSpec{Kind: TBytes}
+		case rng.Intn(12) == 0 && !usedBasic[101]:
+			usedBasic[101] = true
+			spec = TypeSpec{Kind: TFuncLit}
 		case rng.Intn(7) == 0:
 			// a predeclared type; every flow type must be a distinct Go type
 			if x := rng.Intn(len(BasicNames)); !usedBasic[x] {
@@ -124,6 +137,12 @@ func GenFlow(rng *rand.Rand, o GenOpts) *FlowP {
 		if len(in) < nin && rng.Intn(2) == 0 {
 			in = append(in, pickDistinct(rng, rest, nin-len(in))...)
 		}
+		if tree {
+			in = nil
+			if all := append(append([]int{}, fresh...), rest...); len(all) > 0 && rng.Intn(4) != 0 {
+				in = pickDistinct(rng, all, 1)
+			}
+		}
 		t.In = in
 		for _, a := range in {
 			consumed[a]++
@@ -144,7 +163,9 @@ func GenFlow(rng *rand.Rand, o GenOpts) *FlowP {
 					predAvail = append(predAvail, ty)
 				}
 			}
-			if rng.Intn(4) == 0 && len(predAvail) > 0 {
+			if tree && rng.Intn(3) != 0 {
+				// mostly predicate-free
+			} else if rng.Intn(4) == 0 && len(predAvail) > 0 {
 				p := &PredP{Ctx: rng.Intn(2) == 0}
 				p.In = pickDistinct(rng, predAvail, rng.Intn(3))
 				for _, a := range p.In {
